@@ -171,7 +171,17 @@ pub fn run(rep: &mut Rep) {
     let mut trunc_panics = 0u64;
     for i in 0..nw {
         let depth = [20usize, 20, 20, 0, 1, 19, 21, 32][i % 8];
-        let (lab, w) = gen_witness(&mut rng, &grid, i, depth);
+        let (mut lab, mut w) = gen_witness(&mut rng, &grid, i, depth);
+        // the two vectors of a witness are encoded independently: the decoder also accepts encodings in which
+        // they differ in length, and such a value must survive re-encoding like any other
+        let mismatched = i % 6 == 5;
+        if mismatched {
+            let nl = [0usize, depth.saturating_sub(1), depth + 1, depth + 5, 2 * depth + 3][(i / 6) % 5];
+            if nl != depth {
+                w.bits = (0..nl).map(|_| rng.gen_range(0..2u8)).collect();
+                lab = format!("{lab}|index-len{}path-len", if nl < depth { "<" } else { ">" });
+            }
+        }
         let enc = enc_witness(&w);
         rep.ev();
         rep.stratum(format!("witness|{lab}"));
@@ -182,6 +192,11 @@ pub fn run(rep: &mut Rep) {
                     viol(rep, "witness:decode:read-len", json!({"read": read, "len": enc.len()}));
                 }
                 zw
+            }
+            Ok(Err(_)) if mismatched && w.bits.len() != w.path.len() => {
+                // refusing such an encoding is as good as carrying it faithfully
+                rep.count("witness_mismatched_vector_lengths_refused_by_decoder");
+                continue;
             }
             Ok(Err(e)) => {
                 viol(rep, "witness:decode:err", json!({"case": lab, "err": e.to_string(), "enc": hex_short(&enc)}));
@@ -206,7 +221,7 @@ pub fn run(rep: &mut Rep) {
             Err(p) => viol(rep, "witness:encode:panic", json!({"case": lab, "panic": p.msg})),
         }
         // JSON round trip
-        if i % 4 == 0 {
+        if i % 4 == 0 || mismatched {
             rep.ev();
             match catch(|| rln_witness_to_json(&zw).and_then(rln_witness_from_json)) {
                 Ok(Ok(back)) => {
@@ -218,6 +233,9 @@ pub fn run(rep: &mut Rep) {
                 Err(p) => viol(rep, "witness_json:panic", json!({"case": lab, "panic": p.msg})),
             }
             // bigint JSON: compare with independently built expected value
+            if w.bits.len() != w.path.len() {
+                continue;
+            }
             rep.ev();
             let want = crate::noderef::rln_inputs_json(&w);
             match catch(|| rln_witness_to_bigint_json(&zw)) {
